@@ -69,19 +69,15 @@ pub fn dead_code_elimination(function: &il::Function) -> Result<il::Function, Er
 
     let du = def_use(function)?;
 
-    // Get every assignment with no uses, that isn't in live
+    // Get every assignment and load with no uses, that isn't in live. Stores,
+    // branches and intrinsics are never eliminated.
     let kill = function
         .locations()
         .into_iter()
         .filter(|location| {
             location
                 .instruction()
-                .map(|instruction| {
-                    !instruction
-                        .scalars_written()
-                        .map(|scalars_written| scalars_written.is_empty())
-                        .unwrap_or(false)
-                })
+                .map(|instruction| instruction.is_assign() || instruction.is_load())
                 .unwrap_or(false)
         })
         .filter(|location| !live.contains(&location.clone().into()))
